@@ -10,7 +10,7 @@
    thread allocating in its own arena never shifts another thread's addresses (C20); the sequential
    model (C11) runs everything in arena 0. *)
 Require Import IP.Base.Bytes.
-From Coq Require Import List Arith Bool.
+From Coq Require Import List Arith Bool ZArith.
 Import ListNotations.
 Local Open Scope nat_scope.
 
@@ -28,7 +28,11 @@ Definition nil_slice : slice := {| s_arr := None; s_off := 0; s_len := 0; s_cap 
               (traversal/selector/matcher_util.go readerat + io.SectionReader) *)
 Inductive rdr :=
 | RdBytes (s : slice) (pos : nat)
-| RdSect (parent : addr) (raoff base off limit : nat).
+| RdSect (parent : addr) (raoff base off limit : nat)
+| RdCursor (src : addr) (off : nat).   (* basicnode.streamCursor{src, off} (e31ecf7): a position of its
+                                          own over the reader in cell [src], which it re-positions before every read *)
+
+Inductive whence := SeekStart | SeekCurrent | SeekEnd.
 
 Section Mem.
   Variable V : Type.
@@ -214,6 +218,19 @@ Section Mem.
       | CRdr (RdSect p ra base _ lim) => Wr a (CRdr (RdSect p ra base lim lim)) (Ret (lim - base))
       | _ => Crash end).
 
+  (* The content a reader denotes when read from its start by a private reader: what the node
+     "is", independently of any position. *)
+  Fixpoint rd_content (fuel : nat) (a : addr) : prog (list N) :=
+    match fuel with
+    | O => Crash
+    | S f =>
+      Rd a (fun c => match c with
+        | CRdr (RdBytes s _) => read_bytes s
+        | CRdr (RdSect p _ base _ lim) =>
+            pbind (rd_content f p) (fun data => Ret (firstn (lim - base) (skipn base data)))
+        | _ => Crash end)
+    end.
+
   (* Read up to [k] bytes ([None] = until EOF, as io.ReadAll does) from the reader's current
      position, advancing it.  A section reader goes through its readerat, which re-seeks the parent
      only when the offset it is asked for differs from the one it believes the parent to be at. *)
@@ -234,21 +251,42 @@ Section Mem.
               pbind (if off =? ra then Ret tt else rd_seek p off) (fun _ =>
               pbind (rd_read f p (Some want)) (fun out =>
                 Wr a (CRdr (RdSect p (off + length out) base (off + length out) lim)) (Ret out)))
+        | CRdr (RdCursor src off) =>
+            (* lock; src.Seek(off); src.Read: whatever the source's own position was *)
+            pbind (rd_content f src) (fun data =>
+              let rest := skipn off data in
+              let out := match k with None => rest | Some n => firstn n rest end in
+              Wr a (CRdr (RdCursor src (off + length out))) (Ret out))
         | _ => Crash end)
     end.
 
-  (* The content a reader denotes when read from its start by a private reader: what the node
-     "is", independently of any position. *)
-  Fixpoint rd_content (fuel : nat) (a : addr) : prog (list N) :=
-    match fuel with
-    | O => Crash
-    | S f =>
-      Rd a (fun c => match c with
-        | CRdr (RdBytes s _) => read_bytes s
-        | CRdr (RdSect p _ base _ lim) =>
-            pbind (rd_content f p) (fun data => Ret (firstn (lim - base) (skipn base data)))
-        | _ => Crash end)
-    end.
+
+  (* Seek(off, whence) on a handed-out reader; None = the error for a negative position *)
+  Definition rd_seekw (fuel : nat) (a : addr) (off : Z) (wh : whence) : prog (option Z) :=
+    Rd a (fun c => match c with
+      | CRdr (RdBytes s pos) =>
+          let abs := match wh with
+                     | SeekStart => off | SeekCurrent => (Z.of_nat pos + off)%Z | SeekEnd => (Z.of_nat (s_len s) + off)%Z
+                     end in
+          if (abs <? 0)%Z then Ret None else Wr a (CRdr (RdBytes s (Z.to_nat abs))) (Ret (Some abs))
+      | CRdr (RdSect p ra base o lim) =>
+          let abs := match wh with
+                     | SeekStart => (Z.of_nat base + off)%Z | SeekCurrent => (Z.of_nat o + off)%Z
+                     | SeekEnd => (Z.of_nat lim + off)%Z
+                     end in
+          if (abs <? Z.of_nat base)%Z then Ret None
+          else Wr a (CRdr (RdSect p ra base (Z.to_nat abs) lim)) (Ret (Some (abs - Z.of_nat base)%Z))
+      | CRdr (RdCursor src o) =>
+          match wh with
+          | SeekEnd =>     (* only the underlying reader knows where its end is *)
+              pbind (rd_content fuel src) (fun data =>
+                let abs := (Z.of_nat (length data) + off)%Z in
+                if (abs <? 0)%Z then Ret None else Wr a (CRdr (RdCursor src (Z.to_nat abs))) (Ret (Some abs)))
+          | _ =>
+              let abs := match wh with SeekStart => off | _ => (Z.of_nat o + off)%Z end in
+              if (abs <? 0)%Z then Ret None else Wr a (CRdr (RdCursor src (Z.to_nat abs))) (Ret (Some abs))
+          end
+      | _ => Crash end).
 
 End Mem.
 
@@ -284,5 +322,6 @@ Arguments rd_seek {V} a o.
 Arguments rd_seek_end {V} a.
 Arguments rd_read {V} fuel a k.
 Arguments rd_content {V} fuel a.
+Arguments rd_seekw {V} fuel a off wh.
 
 Notation "'let*' x ':=' p 'in' k" := (pbind p (fun x => k)) (at level 200, x name, p at level 100, k at level 200, right associativity).
